@@ -126,6 +126,26 @@ impl Property for C05 {
                 }
             }
         }
+        // every length up to the dense bound
+        for (t, n) in dense_lengths(tier) {
+            if !sh.mine() {
+                continue;
+            }
+            let a = dense_value(n);
+            for (j, k) in [1usize, 64, n / 2, n - 1].into_iter().enumerate() {
+                for left in [true, false] {
+                    let c = C05Case::Shift { a: Operand::canon(t, a.clone()), amt: Nat::new(NatTy::U64, k as u128), left, form: SH_FORMS[(n + j) % 6] };
+                    if !f(c) {
+                        return;
+                    }
+                }
+            }
+            for left in [true, false] {
+                if !f(C05Case::ShIn { a: Operand::canon(t, a.clone()), bit: true, left }) {
+                    return;
+                }
+            }
+        }
         // vectors of thousands of bits: amounts around 1024 and around n, all six forms
         for t in [TID_D, TID_A] {
             for n in [1100usize, 2047, 2048, 2049, 4096, 4100] {
